@@ -50,6 +50,12 @@ pub struct Profile {
     pub lower_case_ops: bool,
     pub facets: bool,
     pub forward_refs: bool,
+    /// most complex types extend an earlier one (C08 profile)
+    #[serde(default)]
+    pub ext_bias: bool,
+    /// reuse local names across namespaces and kinds (C09 profile)
+    #[serde(default)]
+    pub collide: bool,
 }
 
 impl Profile {
@@ -82,6 +88,8 @@ impl Profile {
             lower_case_ops: true,
             facets: true,
             forward_refs: true,
+            ext_bias: false,
+            collide: false,
         }
     }
     /// switch a feature off by its tag name; returns false for an unknown tag
@@ -503,7 +511,8 @@ impl B<'_> {
     fn body(&mut self, file: usize, limit: usize, b: &RawBody, rank: usize) -> Body {
         let mut used: BTreeSet<String> = BTreeSet::new();
         let mut base = None;
-        if let Some(sel) = b.base {
+        let base_sel = b.base.or(if self.p.ext_bias && rank % 4 != 0 { Some((rank as u16).wrapping_mul(7919)) } else { None });
+        if let Some(sel) = base_sel {
             if self.p.extension {
                 let c = self.candidates(file, limit, &[1], false);
                 if !c.is_empty() {
@@ -730,7 +739,9 @@ pub fn build(raw: &RawModel, p: &Profile) -> (Model, BuildStats) {
                     }
                     let sel = if let RawTy::Named(s) = ty { *s } else { 0 };
                     let t = c[idx(sel, c.len())];
-                    let nm = if *same_name && p.same_name_elem_and_type && t.file == fi {
+                    let type_name = b.files[t.file].comps[t.comp].name.clone();
+                    let already = b.files[fi].comps.iter().any(|c| matches!(c.kind, CompKind::ElementTyped(_) | CompKind::ElementAnon(_)) && c.name.pascal() == type_name.pascal());
+                    let nm = if *same_name && p.same_name_elem_and_type && t.file == fi && !already {
                         b.stats.feat("element.same-name-as-type");
                         b.files[t.file].comps[t.comp].name.clone()
                     } else {
@@ -768,6 +779,9 @@ pub fn build(raw: &RawModel, p: &Profile) -> (Model, BuildStats) {
         }
     } else {
         b.stats.mask("forward_refs");
+    }
+    if p.collide {
+        collide(&mut m, raw, &mut b.stats);
     }
     // WSDL
     let want_wsdl = match p.wsdl {
@@ -935,4 +949,100 @@ fn build_wsdl(m: &Model, rw: &RawWsdl, p: &Profile, stats: &mut BuildStats) -> O
         service: plain_name(45, &rw.service, false),
         address: format!("http://localhost:{}/svc/{}", 20000 + (rw.addr % 20000), EXTRA[rw.addr as usize % EXTRA.len()]),
     })
+}
+
+/// C09 profile: make local names collide across namespaces and across kinds. References are by
+/// index, so they keep denoting the same components; only the spelling of names changes.
+fn collide(m: &mut Model, raw: &RawModel, stats: &mut BuildStats) {
+    let nfiles = m.files.len();
+    let sel = raw.files.iter().map(|f| f.perm as usize).sum::<usize>();
+    // named types only: renaming a global element would also rename the members that `ref` it and
+    // could make two members of one struct share a name, which is outside the subset
+    let struct_like = |c: &Comp| matches!(c.kind, CompKind::Complex(_) | CompKind::Simple(_));
+    // (1) a struct-producing component of file j takes the name of one of file i (another namespace)
+    for j in 1..nfiles {
+        let i = (sel + j) % j; // some earlier file
+        if m.files[i].ns == m.files[j].ns {
+            continue;
+        }
+        let donors: Vec<Name> = m.files[i].comps.iter().filter(|c| struct_like(c)).map(|c| c.name.clone()).collect();
+        if donors.is_empty() {
+            continue;
+        }
+        let taken: Vec<String> = m.files[j].comps.iter().map(|c| c.name.pascal()).collect();
+        for (k, c) in m.files[j].comps.iter_mut().enumerate() {
+            if !struct_like(c) {
+                continue;
+            }
+            let d = &donors[(sel + k) % donors.len()];
+            if !taken.contains(&d.pascal()) && (sel + k) % 2 == 0 {
+                c.name = d.clone();
+                stats.feat("collision.same-local-name-in-two-namespaces");
+                break;
+            }
+        }
+    }
+    // (2) a local element / attribute is named like a global component of the same or another namespace
+    let globals: Vec<Name> = m.files.iter().flat_map(|f| f.comps.iter().map(|c| c.name.clone())).collect();
+    if globals.is_empty() {
+        return;
+    }
+    fn rename_first(parts: &mut [Particle], to: &Name, taken: &[String]) -> bool {
+        for p in parts.iter_mut() {
+            match p {
+                Particle::Elem { name, .. } => {
+                    if !taken.contains(&to.snake()) {
+                        *name = to.clone();
+                        return true;
+                    }
+                    return false;
+                }
+                Particle::Seq(s) => {
+                    if rename_first(&mut s.parts, to, taken) {
+                        return true;
+                    }
+                }
+                Particle::Choice { branches, .. } => {
+                    if rename_first(branches, to, taken) {
+                        return true;
+                    }
+                }
+                Particle::Ref { .. } => {}
+            }
+        }
+        false
+    }
+    let snapshot = m.clone();
+    for fi in 0..nfiles {
+        for ci in 0..m.files[fi].comps.len() {
+            if (sel + fi * 5 + ci) % 3 != 0 {
+                continue;
+            }
+            let to = globals[(sel + fi + ci * 7) % globals.len()].clone();
+            let taken: Vec<String> = match &snapshot.files[fi].comps[ci].kind {
+                CompKind::Complex(b) | CompKind::ElementAnon(b) => crate::expect::body_fields(&snapshot, fi, b, 0).iter().map(|f| f.rust.trim_start_matches("r#").to_string()).collect(),
+                _ => continue,
+            };
+            // derived types inherit members: keep the renamed member out of every descendant's way by
+            // only renaming in types nobody extends
+            let extended = snapshot.files.iter().any(|f| f.comps.iter().any(|c| matches!(&c.kind, CompKind::Complex(b) | CompKind::ElementAnon(b) if b.base == Some(QRef { file: fi, comp: ci }))));
+            if extended {
+                continue;
+            }
+            if let CompKind::Complex(b) | CompKind::ElementAnon(b) = &mut m.files[fi].comps[ci].kind {
+                if let Some(s) = &mut b.seq {
+                    if rename_first(&mut s.parts, &to, &taken) {
+                        stats.feat("collision.member-named-like-global-component");
+                        continue;
+                    }
+                }
+                if let Some(a) = b.attrs.first_mut() {
+                    if !taken.contains(&to.snake()) {
+                        a.name = to.clone();
+                        stats.feat("collision.attribute-named-like-global-component");
+                    }
+                }
+            }
+        }
+    }
 }
